@@ -14,6 +14,7 @@ import gen_kernels
 
 PID = 'C15'
 PROP_V = 'Props/C15.v'
+CORR_V = ('Corr/CorrC15.v',)
 HEADER = 'From Coq Require Import QArith.\nRequire Import V.Corr.CorrC15.\n'
 
 CODES = {'TypeError': 1, 'ValueError': 2, 'ZeroDivisionError': 3}
